@@ -23,7 +23,7 @@ class Check(CheckBase):
             'and in seeded pairs, each applied to a copy of the object map and followed by a real restore (no cache, fresh '
             'Repository) - untargeted and targeted at one snapshot. Oracle: the restore raised, or it returned and the target '
             'tree equals the restore model over the snapshots whose objects were not removed (original contents); and the '
-            'paths it reports equal that tree. class = (corruption family, object kind, encrypted?, outcome)')
+            'paths it reports equal that tree. The program itself (`python -m replicat restore`, default interpreter and python -O) must exit non-zero or restore the right bytes. class = (corruption family, object kind, encrypted?, outcome)')
     assumptions = ['removal of a snapshot object makes that snapshot legitimately absent (same as delete); every other corruption '
                    'must be detected or be irrelevant to the bytes restored',
                    'cache disabled; cache states are the subject of C18']
@@ -44,6 +44,13 @@ class Check(CheckBase):
                 'two_users': i % 5 == 0,
                 'budget': 70 if quick else 160,
             })
+        # the same question asked of the program itself: `python -m replicat restore` on a damaged local repository must
+        # exit non-zero or restore the right bytes - also with assertions stripped (python -O)
+        for i in range(12 if quick else 120):
+            r = random.Random(f'C04/{self.seed}/cli/{i}')
+            cases.append({'kind': 'cli', 'seed': r.randrange(1 << 30),
+                          'settings': gen.gen_settings(r, encrypted=(i % 2 == 0), chunker=r.choice([(8, 64), (64, 1024)])),
+                          'optimize': i % 3 == 2, 'timeout': 300})
         return cases
 
     def worker_setup(self):
@@ -65,10 +72,98 @@ class Check(CheckBase):
             unmet.append('too few corruptions applied')
         if c.get('retries_with_cache', 0) < 200:
             unmet.append('too few retried restores with the snapshot cache on')
+        if c.get('cli_restores', 0) < 40:
+            unmet.append('too few restores through the command line')
         return unmet[:6]
 
     # -------------------------------------------------------------------------------------------------
+    def _cli(self, case):
+        import subprocess
+        from .. import rep
+        from replicat.backends.local import Local
+        r = random.Random(case['seed'])
+        scratch = tempfile.mkdtemp(prefix='vf-c04c-', dir=paths.scratch_root())
+        counters, classes, violations = {'cli_restores': 0}, set(), []
+        try:
+            repo, src, keyf = os.path.join(scratch, 'repo'), os.path.join(scratch, 'src'), os.path.join(scratch, 'key')
+            os.makedirs(src)
+            mx = case['settings']['chunking']['max_length']
+            truth = {}
+            for i in range(3):
+                data = r.randbytes(r.choice([mx // 2, 3 * mx + 1, 9 * mx]))
+                Path(src, f'f{i}').write_bytes(data)
+                truth[os.path.realpath(os.path.join(src, f'f{i}'))] = data
+
+            async def build():
+                be = Local(repo)
+                _, key, _ = await rep.init(be, case['settings'], concurrent=2)
+                rp = await rep.unlocked(be, key, concurrent=2)
+                with rep.capture():
+                    await rp.snapshot(paths=[Path(src)])
+                return key
+            key = asyncio.run(build())
+            enc = key is not None
+            if enc:
+                Path(keyf).write_bytes(key)
+            chunks = sorted(os.path.join(dp, f) for dp, _, fs in os.walk(os.path.join(repo, 'data')) for f in fs)
+            pristine = {c: open(c, 'rb').read() for c in chunks}
+
+            def run_cli(target):
+                argv = ['restore', target, '-r', repo, '--no-cache', '-q', '--ignore-config']
+                if enc:
+                    argv += ['-K', keyf, '-p', rep.PASSWORD.decode()]
+                code = ("import sys; import vflib.rep, runpy; sys.argv = ['replicat'] + %r; "
+                        "runpy.run_module('replicat', run_name='__main__')" % argv)
+                env = dict(os.environ)
+                if case['optimize']:
+                    env['PYTHONOPTIMIZE'] = '1'
+                return subprocess.run([paths.PYTHON, '-c', code], capture_output=True, text=True, timeout=120, env=env,
+                                      cwd=str(paths.VERIF))
+            plans = [('control', None)] + [(k, r.choice(chunks)) for k in ('flip', 'truncate', 'swap', 'delete', 'flip')]
+            for n, (kind, victim) in enumerate(plans):
+                for c, b in pristine.items():
+                    with open(c, 'wb') as f:
+                        f.write(b)
+                if kind == 'flip':
+                    b = bytearray(pristine[victim])
+                    if not b:
+                        continue
+                    b[r.randrange(len(b))] ^= 1 << r.randrange(8)
+                    open(victim, 'wb').write(bytes(b))
+                elif kind == 'truncate':
+                    open(victim, 'wb').write(pristine[victim][: r.choice([0, 1, max(len(pristine[victim]) - 1, 0)])])
+                elif kind == 'swap':
+                    other = r.choice([c for c in chunks if pristine[c] != pristine[victim]] or [victim])
+                    open(victim, 'wb').write(pristine[other])
+                    open(other, 'wb').write(pristine[victim])
+                elif kind == 'delete':
+                    os.unlink(victim)
+                target = os.path.join(scratch, f'target{n}')
+                p = run_cli(target)
+                counters['cli_restores'] += 1
+                got = {'/' + k: v[0] for k, v in gen.walk_tree(target).items()} if os.path.isdir(target) else {}
+                outcome = 'exit0' if p.returncode == 0 else 'nonzero'
+                classes.add(f'cli|{kind}|{"enc" if enc else "plain"}|{"-O" if case["optimize"] else "default"}|{outcome}')
+                if kind == 'control':
+                    if p.returncode != 0 or got != truth:
+                        return {'verdict': 'inconclusive', 'note': f'control restore through the CLI failed: rc={p.returncode} {p.stderr[-400:]}',
+                                'classes': [], 'counters': counters}
+                elif p.returncode == 0 and got != truth:
+                    bad = sorted(pth for pth in set(got) | set(truth) if got.get(pth) != truth.get(pth))[:3]
+                    violations.append({'what': f'`replicat restore` exited 0 after [{kind}:chunk] but did not write the original content '
+                                               f'({"python -O" if case["optimize"] else "default interpreter"})', 'mechanism': None,
+                                       'witness': {'paths': bad, 'stderr': p.stderr[-300:], 'settings': case['settings']}})
+                shutil.rmtree(target, ignore_errors=True)
+        except subprocess.TimeoutExpired:
+            return {'verdict': 'inconclusive', 'note': 'CLI child watchdog', 'classes': [], 'counters': counters}
+        finally:
+            shutil.rmtree(scratch, ignore_errors=True)
+        return {'verdict': 'violated' if violations else 'held', 'classes': sorted(classes), 'counters': counters,
+                'violations': violations[:3]}
+
     def run_case(self, case):
+        if case.get('kind') == 'cli':
+            return self._cli(case)
         from .. import hist, membackend, model, rep
         from replicat import exceptions
         r = random.Random(case['seed'])
